@@ -1600,6 +1600,22 @@ def rule_migmisc(text):
         new = "fs_hard_link(" + text[op + 1:cl] + ")"
         apps.append(_app("R-fs", text, mm.start(), cl2 + 1, new, "shim: fs::hard_link with its error mapped to DestinationExists (AlreadyExists) or Io; never replaces an existing name"))
         text = text[:mm.start()] + new + text[cl2 + 1:]
+    # fs::rename(A, B).map_err(|source| ..)?   ->   fs_rename(A, B)?   (std::fs::rename REPLACES an existing destination)
+    while True:
+        m = mask(text)
+        mm = re.search(r"fs\s*::\s*rename\s*\(", m)
+        if not mm:
+            break
+        op = mm.end() - 1
+        cl = match_close(m, op)
+        t = re.match(r"\s*\.\s*map_err\s*\(", m[cl + 1:])
+        if not t:
+            break
+        op2 = cl + 1 + t.end() - 1
+        cl2 = match_close(m, op2)
+        new_ = "fs_rename(" + text[op + 1:cl] + ")"
+        apps.append(_app("R-fs", text, mm.start(), cl2 + 1, new_, "shim: fs::rename with its error mapped to Io; unlike hard_link it silently replaces an existing destination"))
+        text = text[:mm.start()] + new_ + text[cl2 + 1:]
     table = [
         (r"if" + ws + r"let" + ws + r"Err\((\w+)\)" + ws + r"=" + ws + r"fs\s*::\s*hard_link\s*\(([^()]*)\)" + ws + r"\{", r"let link_res_ = fs_hard_link_raw(\2); if let Err(\1) = link_res_ {", "R-bindres",
          "the scrutinee of an `if let` bound to a temporary first (same evaluation order), so that the outcome of the call can be named"),
@@ -1830,6 +1846,9 @@ def rule_shardmisc(text):
     table = [
         (r"let" + ws + r"entry_size" + ws + r"=" + ws + r"entries" + ws + r"\.iter\(\)" + ws + r"\.map\(\|entry\|" + ws + r"entry\.record\.calculate_size\(\)\)" + ws + r"\.sum::<usize>\(\);", "let entry_size = sum_sizes_arr(&entries);", "R-sum", "shim: the summed record sizes (statistics only)"),
         (r"let" + ws + r"size" + ws + r"=" + ws + r"entries" + ws + r"\.iter\(\)" + ws + r"\.map\(\|entry\|" + ws + r"entry\.record\.calculate_size\(\)\)" + ws + r"\.sum\(\);", "let size = sum_sizes_vec(&entries);", "R-sum", "shim: the summed record sizes (statistics only)"),
+        (r"let" + ws + r"(\w+)" + ws + r"=" + ws + r"std::mem::take\(&mut" + ws + r"\*self\.buffer\.lock\(\)\);", r"let mut \1 = self.buffer.lock().take_queue();", "R-take",
+         "shim: mem::take through a TEMPORARY guard = the queued entries are taken out and the guard is released at the end of the statement"),
+        (r"let" + ws + r"entries:" + ws + r"Vec<_>" + ws + r"=" + ws + r"(\w+)\.into_iter\(\)\.collect\(\);", r"let entries = \1.drain_all();", "R-drainall", "shim: a by-value iteration collected = all elements in order"),
         (r"let" + ws + r"entries:" + ws + r"Vec<_>" + ws + r"=" + ws + r"buffer\.drain\(\.\.\)\.collect\(\);", "let entries = buffer.drain_all();", "R-drainall", "shim: a full drain collected = all queued entries in order, the queue left empty"),
         (r"for" + ws + r"entry" + ws + r"in" + ws + r"entries\.into_iter\(\)\.rev\(\)" + ws + r"\{", "let mut entries_q_ = RevQueue::new(entries); while let Some(entry) = entries_q_.pop_back() {", "R-revvec", "shim: by-value reverse iteration of a Vec = popping its elements back to front"),
         (r"for" + ws + r"entry" + ws + r"in" + ws + r"entries\.into_iter\(\)" + ws + r"\{", "for entry in entries {", "R-intoiter", "`for x in v.into_iter()` = `for x in v`"),
